@@ -23,6 +23,7 @@ class C06System(BuilderSystem):
         return [
             ["tool_off"], ["power_off"], ["coolant_off"],
             ["emergency_halt", [MSG]], ["emergency_halt", [MSG, True]],
+            ["emergency_halt", [""]], ["emergency_halt", ["first line\nsecond line", True]], ["emergency_halt", ["   "]],
             ["tool_on", ["clockwise", p1]], ["tool_on", ["counter", p2]],
             ["power_on", ["constant", p2]], ["power_on", ["dynamic", p1]],
             ["coolant_on", ["mist"]], ["coolant_on", ["flood"]],
@@ -55,8 +56,11 @@ class C06System(BuilderSystem):
                 if codes != want:
                     problems.append((f"{name}-wrong-output", f"{name} emitted {st.last_lines}, expected codes {want}"))
                 elif name == "emergency_halt":
-                    if MSG not in st.last_lines[2]:
+                    msg = op[1][0]
+                    if "\n" not in msg and msg.strip() and msg not in st.last_lines[2]:
                         problems.append(("emergency-message-missing", f"third line {st.last_lines[2]!r} lacks the message"))
+                    if not st.last_lines[2].lstrip().startswith(";"):
+                        problems.append(("emergency-message-not-comment", f"third line {st.last_lines[2]!r} is not a comment"))
                     if st.last_infos[2]["others"] or st.last_infos[2]["codes"]:
                         problems.append(("emergency-message-not-comment", f"third line {st.last_lines[2]!r} has executable words"))
                 if name in ("tool_off", "power_off", "emergency_halt") and s.is_tool_active:
